@@ -62,6 +62,7 @@ class Model:
                     tree = ast.parse(text, filename=path)
                 except SyntaxError as err:
                     raise AnalysisError("cannot parse %s: %s" % (path, err))
+                normalise(tree)
                 self.files[path] = (text, tree)
                 rel = os.path.relpath(path, self.src)[:-3].split(os.sep)
                 if rel[-1] == "__init__":
@@ -302,3 +303,67 @@ class Model:
         if isinstance(e, type) and base_name in self.exceptions:
             return False
         return False
+
+
+# ----------------------------------------------------------------------------------------------------------
+# normal form: every rule sees the same tree for code that differs only in the two shapes below
+def normalise(tree):
+    """(N1) `t = E` directly followed by `return t`, where t is a plain local that is not used anywhere else in the function, becomes
+    `return E`; (N2) a store of a constant into a local that is never read in the function is dropped.  Both are meaning-preserving,
+    and they make the rules (which look at what is returned, and count the statements of a body) insensitive to a temporary
+    introduced for a return value or to a no-op first statement.  Line numbers of the remaining nodes are unchanged."""
+    for fn in [n for n in ast.walk(tree) if isinstance(n, (ast.FunctionDef, ast.AsyncFunctionDef))]:
+        loads, stores = {}, {}
+        for n in ast.walk(fn):
+            if isinstance(n, ast.Name):
+                (loads if isinstance(n.ctx, ast.Load) else stores).setdefault(n.id, []).append(n)
+        declared = set()
+        for n in ast.walk(fn):
+            if isinstance(n, (ast.Global, ast.Nonlocal)):
+                declared.update(n.names)
+        nested_defs = [n for n in ast.walk(fn) if isinstance(n, (ast.FunctionDef, ast.Lambda, ast.ClassDef)) and n is not fn]
+
+        # locals used as return temporaries only: every store is `t = E` directly in front of a `return t`, every load is that return
+        pairs = {}
+        lists = []
+        for n in ast.walk(fn):
+            for field in ("body", "orelse", "finalbody"):
+                v = getattr(n, field, None)
+                if isinstance(v, list) and v and isinstance(v[0], ast.stmt):
+                    lists.append(v)          # (an ExceptHandler is a node with a body of its own)
+        for v in lists:
+            for a_, b_ in zip(v, v[1:]):
+                if isinstance(a_, ast.Assign) and len(a_.targets) == 1 and isinstance(a_.targets[0], ast.Name) \
+                        and isinstance(b_, ast.Return) and isinstance(b_.value, ast.Name) and b_.value.id == a_.targets[0].id:
+                    pairs[a_.targets[0].id] = pairs.get(a_.targets[0].id, 0) + 1
+        temps = {t for t, k in pairs.items() if len(loads.get(t, [])) == k and len(stores.get(t, [])) == k and t not in declared}
+
+        def rewrite(stmts):
+            out = []
+            i = 0
+            while i < len(stmts):
+                s = stmts[i]
+                nxt = stmts[i + 1] if i + 1 < len(stmts) else None
+                if isinstance(s, ast.Assign) and len(s.targets) == 1 and isinstance(s.targets[0], ast.Name):
+                    t = s.targets[0].id
+                    if t not in declared:
+                        if isinstance(nxt, ast.Return) and isinstance(nxt.value, ast.Name) and nxt.value.id == t \
+                                and t in temps and not nested_defs:
+                            new = ast.Return(value=s.value)
+                            ast.copy_location(new, nxt)
+                            out.append(new)
+                            i += 2
+                            continue
+                        if isinstance(s.value, ast.Constant) and t not in loads and len(stores.get(t, [])) == 1 and not nested_defs \
+                                and t.startswith("_"):
+                            i += 1
+                            continue
+                out.append(s)
+                i += 1
+            return out or [ast.Pass()]
+        for n in ast.walk(fn):
+            for field in ("body", "orelse", "finalbody"):
+                v = getattr(n, field, None)
+                if isinstance(v, list) and v and isinstance(v[0], ast.stmt):
+                    setattr(n, field, rewrite(v))
+    return tree
